@@ -51,12 +51,12 @@ def generate(seed, run, tier):
             'action_perm_seed': r.randrange(2**31),
             'wrapper': r.random() < 0.5,
             'state_repr': r.choice(REPRS),
-            'env_seed': r.randrange(2**31),
+            'env_seed': W.gen_seed(r),
         })
     rec['clients'] = clients
     ops = []
     for c in range(ncl):
-        ops.append([c, 'set_seed', r.randrange(2**31)])
+        ops.append([c, 'set_seed', W.gen_seed(r)])
         ops.append([c, 'reset'])
     n = r.randint(25, 80 if not big else 250)
     while len(ops) < n:
